@@ -252,8 +252,75 @@ def t_pvalues(T):
              eng.to_real(o["ts"]) == TSF(eng.box(o["poi"]), eng.box(a["data"])), kind="forwarding")
 
 
+def t_simultaneous_sample(T):
+    """probability.Simultaneous.sample: the pseudo-data of constituent k land at the data positions the tensor viewer assigns to k -
+    the positions Simultaneous.log_prob reads them from (split(sample()) gives the constituent samples back)"""
+    from . import hf_skeleton as K
+    from .common import typed_opaque
+    key = "probability.py::Simultaneous.sample"
+    layouts = {"in-order": [[0, 1, 2], [3, 4]], "first-constituent-last": [[3, 4], [0, 1, 2]], "interleaved": [[0, 2], [1, 3, 4]],
+               "three-constituents": [[4], [0, 1], [2, 3]], "single": [[0, 1]]}
+    for lname, idx in layouts.items():
+        for shape in ((), (2,)):
+            eng = T.engine(K.pipeline_policy())
+            T.under_contract(eng, key)
+            T.under_contract(eng, "tensor/common.py::_TensorViewer.stitch")
+            T.under_contract(eng, "tensor/common.py::_TensorViewer.split")
+            box = {}
+
+            def run():
+                TV = eng.module("tensor/common.py").get("_TensorViewer")
+                SIM = eng.module("probability.py").get("Simultaneous")
+                tv = eng.instantiate(TV, [[list(i) for i in idx]], {})
+                draws = []
+
+                def mk(k, n):
+                    def sample(e, rec):
+                        shp = tuple(rec.args[0]) if rec.args else tuple(rec.kwargs.get("sample_shape", ()))
+                        box.setdefault("shapes", []).append(shp)
+                        f = z3.Function(f"draw{k}", *([I] * (len(shp) + 1)), R)
+                        t = PT(shp + (n,), lambda ix, f=f: f(*ix), "real")
+                        draws.append((k, f, shp))
+                        return t
+                    return sample
+                pdfs = [typed_opaque(eng, f"pdf{k}", {"sample": mk(k, len(ix))}) for k, ix in enumerate(idx)]
+                sim = eng.instantiate(SIM, [pdfs, tv], {})
+                out = eng.call(eng.getattr(sim, "sample"), [shape], {})
+                parts = eng.call(eng.getattr(tv, "split"), [out], {})
+                box.update(draws=draws)
+                return out, parts
+            results = eng.explore(run)
+            T.absorb(eng, results)
+            for k, r in enumerate(results):
+                sfx = f"@{lname},shape={shape},path{k}"
+                if r.kind != "return":
+                    T.fail(f"{key}#no-raise{sfx}", f"{r.exc_name}", kind="raises")
+                    continue
+                out, parts = r.value
+                n = sum(len(ix) for ix in idx)
+                okshape = isinstance(out, PT) and tuple(out.shape) == tuple(shape) + (n,) and all(sh == tuple(shape) for sh in box.get("shapes", []))
+                (T.ok if okshape else T.fail)(f"{key}#post.shape-and-sample-shape-forwarded{sfx}", *([] if okshape else [f"shape {getattr(out, 'shape', None)}, requested {box.get('shapes')}"]), kind="forwarding")
+                if not okshape:
+                    continue
+                goals = []
+                lead = [()] if not shape else [(z3.IntVal(a),) for a in range(shape[0])]
+                for kk, f, shp in box["draws"]:
+                    for j, pos in enumerate(idx[kk]):
+                        for ld in lead:
+                            goals.append(out.fn(ld + (z3.IntVal(pos),)) == f(*ld, z3.IntVal(j)))
+                T.ob_path(eng, f"{key}#post.constituent-draws-land-at-their-data-positions{sfx}", r, z3.And(*goals))
+                g2 = []
+                for kk, f, shp in box["draws"]:
+                    pk = parts[kk]
+                    for j in range(len(idx[kk])):
+                        for ld in lead:
+                            g2.append(pk.fn(ld + (z3.IntVal(j),)) == f(*ld, z3.IntVal(j)))
+                T.ob_path(eng, f"{key}#post.split-of-the-sample-gives-the-constituent-draws-back{sfx}", r, z3.And(*g2))
+
+
 def tasks(tier):
-    return [("EmpiricalDistribution", t_empirical), ("ToyCalculator.distributions", t_distributions), ("ToyCalculator.pvalues", t_pvalues)]
+    return [("EmpiricalDistribution", t_empirical), ("ToyCalculator.distributions", t_distributions), ("ToyCalculator.pvalues", t_pvalues),
+            ("Simultaneous.sample", t_simultaneous_sample)]
 
 
 def replay(r):
@@ -264,6 +331,26 @@ def replay(r):
     from pyhf.infer.calculators import EmpiricalDistribution, ToyCalculator
     pyhf.set_backend("numpy")
     bad = {}
+    if "Simultaneous.sample" in name:
+        from pyhf.probability import Simultaneous
+        from pyhf.tensor.common import _TensorViewer
+
+        class Fake:
+            def __init__(self, k, n): self.k, self.n = k, n
+            def sample(self, sample_shape=()):
+                shp = tuple(sample_shape) + (self.n,)
+                return (1000.0 * (self.k + 1) + np.arange(int(np.prod(shp)), dtype=float)).reshape(shp)
+        for lname, idx in {"in-order": [[0, 1, 2], [3, 4]], "first-constituent-last": [[3, 4], [0, 1, 2]], "interleaved": [[0, 2], [1, 3, 4]]}.items():
+            for shape in ((), (2,)):
+                tv = _TensorViewer([np.asarray(i) for i in idx])
+                pdfs = [Fake(k, len(ix)) for k, ix in enumerate(idx)]
+                out = np.asarray(Simultaneous(pdfs, tv).sample(shape))
+                for k, ix in enumerate(idx):
+                    want = pdfs[k].sample(shape)
+                    got = out[..., ix]
+                    if got.shape != want.shape or not np.array_equal(got, want):
+                        bad[f"{lname},shape={shape},constituent{k}"] = {"positions": ix, "got": got.tolist(), "drawn": want.tolist()}
+        return {"reproduced": bool(bad), "disagreements": bad}
     if "EmpiricalDistribution" in name or "pvalues" in name:
         s = np.asarray([0.0, 1.0, 1.0, 2.5, 2.5, 2.5, 7.0])
         d = EmpiricalDistribution(s)
@@ -308,7 +395,7 @@ def replay(r):
         C.fixed_poi_fit = lambda mu, *a, **k: (calls["fits"].append(mu) or ("pars@", mu))
         C.utils.get_test_stat = lambda nm: (lambda poi, sample, *a, **k: (calls["stats"].append((poi, sample)) or float(len(calls["stats"]))))
         try:
-            for ts, bkgmu in (("qtilde", 0.0), ("q0", 1.0)):
+            for ts, bkgmu in (("qtilde", 0.0), ("q", 0.0), ("q0", 1.0)):
                 calls["fits"].clear(); calls["stats"].clear()
                 calc = C.ToyCalculator([1.0], Model(), test_stat=ts, ntoys=3, track_progress=False)
                 sb, b = calc.distributions(2.5)
